@@ -657,6 +657,19 @@ theorem step_spec {s s' : St} {a : Nat} {op : Op} (hinv : Inv s) (h : step s a o
     have hinv2 : Inv { s with attachCount := s.attachCount + 1 } := hinv.congr rfl rfl
     have := stepped_spec hinv2 (fun l st n => ⟨rfl, rfl, rfl⟩) h
     exact ⟨this.inv, this.others, this.fired⟩
+  | attachBegin f d img =>
+    -- entering the block touches neither a cursor nor the stream
+    simp only [step] at h; injection h with h; subst h
+    exact assemble_plain hinv (new := []) (by simp) rfl (by simp)
+  | attachEnd =>
+    simp only [step] at h
+    cases hf : s.prepared.find? (fun p => p.tid == a) with
+    | none => rw [hf] at h; cases h
+    | some p =>
+      rw [hf] at h; simp only at h
+      have hinv2 : Inv { s with prepared := s.prepared.eraseP (fun p => p.tid == a) } := hinv.congr rfl rfl
+      have := stepped_spec hinv2 (fun l st n => ⟨rfl, rfl, rfl⟩) h
+      exact ⟨this.inv, this.others, this.fired⟩
   | threadCreate newTid =>
     simp only [step] at h
     obtain ⟨c, hg, h⟩ := withCursor_ok h
